@@ -133,6 +133,20 @@ class OtherProvQ(Middleware):
         return next(q='route-q')
 
 
+class TagMW(Middleware):
+    provides = ('tag',)
+
+    def __init__(self, tag):
+        self.tag = tag
+
+    def request(self, next):
+        return next(tag=self.tag)
+
+
+def _ep_tag(tag):
+    return Response('tag:' + tag)
+
+
 def _world():
     w = {}
     w['R0'] = Route('/r0', _mk_ep('r0'))
@@ -170,7 +184,7 @@ def _probe(app, model):
     return resp.status_code == 404
 
 
-NOPS = 9
+NOPS = 10
 
 
 def _apply(w, t, kind, step):
@@ -210,6 +224,10 @@ def _apply(w, t, kind, step):
         other = 1 - t
         app.add(('/emb%d' % step, apps[other]))
         m.extend([('/emb%d' % step + p, tag) for p, tag in model[other]])
+    elif kind == 9:
+        # a route with its OWN middleware: later routes of the same application must not inherit it
+        app.add(Route('/own%d' % step, _ep_tag, middlewares=[TagMW('own%d' % step)]))
+        m.append(('/own%d' % step, 'tag:own%d' % step))
     else:
         # a constructor call that fails must not disturb anything either
         try:
@@ -223,6 +241,7 @@ def _apply(w, t, kind, step):
 def run_history(ops):
     w = _world()
     snap = _snapshot(w)
+    app_mws = [tuple(id(m) for m in a.middlewares) for a in w['apps']]
     for step, o in enumerate(ops):
         t, kind = o % 2, o // 2
         if not _apply(w, t, kind, step):
@@ -235,6 +254,8 @@ def run_history(ops):
                 return False
         if _snapshot(w) != snap:
             return False
+        if [tuple(id(m) for m in a.middlewares) for a in w['apps']] != app_mws:
+            return False          # binding routes never changes an application's own middleware list
     return True
 
 
